@@ -202,7 +202,7 @@ ASSUMPTIONS = [
     "bools, int subclasses, floats incl. inf/nan/-0.0, Fractions, Decimals, complex, mixed pairs): the values are compared "
     "with Python's == (exact across the numeric types; nan taken equal to nan), not the types (1 == 1.0 == True) and not "
     "float bit patterns (0.0 == -0.0); where the arithmetic raises at some value (Decimal + float) the element must raise "
-    "the same exception class at the same value, where the reference cannot be constructed neither can the element",
+    "the same exception class at the same value or one value later (CPython's count adds before it yields), where the reference cannot be constructed neither can the element",
     "Slice indices / steps that are bools or int subclasses are integers (Python slicing accepts them: xs[True:] is "
     "xs[1:], a step False is 0 and rejected) and inside the statement; objects that are only index-like (__index__ "
     "without ordering / arithmetic) and float indices (xs[2.0:] is a TypeError in Python too) are outside: /repo raises "
@@ -2523,11 +2523,17 @@ def _oracle_countfrom(case, res):
     ref = [_canon(v) for v in vals]
     if res["r"] == ref and res.get("exc") == exc:
         return None
+    if exc is not None and res.get("exc") == exc and res["r"][:len(ref)] == ref and len(res["r"]) == len(ref) + 1:
+        # The arithmetic of the arguments raises (Decimal + float: TypeError).  CPython's count computes the successor
+        # before it hands out a value, so it raises one `next` earlier than a loop `yield val; val = val + step`
+        # would: WHEN the inevitable exception comes is not part of "equals itertools.count" (one value of slack)
+        return None
     k = next((i for i, (x, y) in enumerate(zip(res["r"], ref)) if x != y), min(len(res["r"]), len(ref)))
     if k < len(res["r"]) and k < len(ref):
+        lo = max(0, k - 3)
         return (f"CountFrom{shape}(): value number {k} (from 0) is {_show_canon(res['r'][k])}, itertools.count{shape} "
-                f"gives {_show_canon(ref[k])}; first values {[_show_canon(c) for c in res['r'][:8]]} vs "
-                f"{[_show_canon(c) for c in ref[:8]]}")
+                f"gives {_show_canon(ref[k])}; values number {lo}..{k}: {[_show_canon(c) for c in res['r'][lo:k + 1]]} vs "
+                f"{[_show_canon(c) for c in ref[lo:k + 1]]}")
     return (f"CountFrom{shape}() yielded {len(res['r'])} values and then {res.get('exc')}, itertools.count{shape} "
             f"{len(ref)} values and then {exc} (of {case['n']} asked for)")
 
